@@ -207,6 +207,10 @@ pub struct MGroup {
     pub alive: bool,
     /// retention may have been exceeded on the group's backlog
     pub relaxed: bool,
+    /// known region R10: a member left while messages were pending for the group; the
+    /// remaining members may stay parked until the next matching publish (acceptance index
+    /// of the leave)
+    pub stall_from: Option<usize>,
 }
 
 #[derive(Clone, Debug)]
@@ -370,6 +374,9 @@ impl Model {
             }
             if left && g.members.iter().all(|m| m.2.is_some()) {
                 g.alive = false;
+            }
+            if left {
+                g.stall_from = Some(now);
             }
         }
         if !clean {
@@ -740,6 +747,7 @@ impl Model {
             for m in g.members.iter_mut() {
                 if m.0 == slot && m.2.is_none() {
                     m.2 = Some(now);
+                    g.stall_from = Some(now);
                 }
             }
             if g.members.iter().all(|m| m.2.is_some()) {
@@ -800,6 +808,7 @@ impl Model {
                     delivered: BTreeMap::new(),
                     alive: true,
                     relaxed: false,
+                    stall_from: None,
                 }),
             }
         }
